@@ -191,8 +191,18 @@ def build_classes(case):
     for i, k in enumerate(case.get("classes", [])):
         anns, attrs = {}, {"__module__": __name__}
         for f in k["fields"]:
+            if "prop" in f:
+                # a getter-only @property with a return annotation: an OUTPUT of the class that is not an input
+                def getter(self, _v=dec2(f["prop"])):
+                    return _v
+                getter.__annotations__ = {"return": build_ann(f["type"], env)}
+                getter.__name__ = f["name"]
+                attrs[f["name"]] = property(getter)
+                continue
             anns[f["name"]] = build_ann(f["type"], env)
             kw = {}
+            if f.get("discriminator"):
+                kw["discriminator"] = f["discriminator"]
             if "default" in f:
                 kw["default"] = dec2(f["default"])
             if f.get("factory"):
@@ -202,6 +212,8 @@ def build_classes(case):
                     kw[key] = f[key]
             if f.get("fcs"):
                 kw.update(cr_constraints(f["fcs"], env))
+            if "const" in f:
+                kw["const"] = dec2(f["const"])
             if list(kw) == ["default"] and not f.get("as_field"):
                 attrs[f["name"]] = kw["default"]          # plain class-level default
             elif kw:
@@ -860,6 +872,13 @@ def gen_class(rng, idx, classes):
             f["alias"] = "Al" + nm
         elif k < 0.22:
             f["alias_from"] = ["from_" + nm, nm.upper()]
+        elif k < 0.3:
+            # letters whose caseless form is not their lower-case form (ß, final sigma, dotted İ) — with case_insensitive
+            f["alias"] = rng.choice(["Straße", "ΟΔΟΣ", "İd", "MASSE", "ǅem"]) + nm
+            if rng.random() < 0.8:
+                f["case_insensitive"] = True
+            if rng.random() < 0.4:
+                f["alias_from"] = ["Weiß" + nm]
         if rng.random() < 0.08:
             f["no_output"] = True
         if rng.random() < 0.05:
@@ -868,7 +887,12 @@ def gen_class(rng, idx, classes):
             f["on_error"] = rng.choice(["exclude", "preserve"])
             if f["on_error"] == "exclude" and "default" not in f and not f.get("factory"):
                 f["required"] = False
+        if rng.random() < 0.07 and ("default" in f or f.get("factory")) and not f.get("no_output"):
+            f["no_input"] = True          # an output (its default) that is not an input
         fields.append(f)
+    if rng.random() < 0.2:
+        pt = leaf_type(rng)
+        fields.append({"name": "prop_" + rng.choice(["p", "q"]), "type": pt, "prop": enc2(gen_value(rng, pt, classes, True))})
     out = {"kind": kind, "name": f"K{idx}", "fields": fields}
     if rng.random() < 0.3:
         out["options"] = dict(rng.choice([{"addition": True}, {"addition": False}, {"case_insensitive": True}, {"ignore_required": True},
@@ -882,6 +906,8 @@ def gen_dc_input(rng, k, classes, depth=0):
     data = {}
     for f in k["fields"]:
         optional = "default" in f or f.get("factory") or f.get("required") is False
+        if ("prop" in f or f.get("no_input")) and rng.random() < 0.9:
+            continue
         if rng.random() < (0.45 if optional else 0.04):
             continue
         key = f["name"]
@@ -897,7 +923,39 @@ def gen_dc_input(rng, k, classes, depth=0):
     return data
 
 
+def gen_discriminated(rng):
+    """S.item: Union[A, B] = Field(discriminator='kind') with data-class branches A, B (DataClass or Schema; the discriminator
+    field of a branch may have an alias); the input selects a branch by its attribute name or by its alias"""
+    classes = []
+    consts = rng.sample(["a", "b", "c", 1, 2], 2)
+    alias = rng.choice([None, None, "k", "Kind"])
+    for i, cst in enumerate(consts):
+        kf = {"name": "kind", "type": {"b": "str" if isinstance(cst, str) else "int"}, "const": enc2(cst)}
+        if alias:
+            kf["alias"] = alias
+        other = {"name": rng.choice(["x", "y"]) + str(i), "type": leaf_type(rng)}
+        if rng.random() < 0.4:
+            other["default"] = enc2(gen_value(rng, other["type"], classes, True))
+        classes.append({"kind": rng.choice(["DataClass", "Schema"]), "name": f"K{i}", "fields": [kf, other]})
+    holder = {"kind": rng.choice(["Schema", "Schema", "DataClass"]), "name": "K2", "fields": [
+        {"name": "item", "type": {"g": "Union", "args": [{"dc": 0}, {"dc": 1}]}, "discriminator": "kind"}]}
+    if rng.random() < 0.3:
+        holder["fields"].append({"name": "n", "type": {"b": "int"}, "default": enc2(1)})
+    classes.append(holder)
+    i = rng.randrange(2)
+    branch = classes[i]
+    data = {(alias if alias and rng.random() < 0.5 else "kind"): consts[i] if rng.random() < 0.9 else "zz"}
+    of = branch["fields"][1]
+    if "default" not in of or rng.random() < 0.6:
+        data[of["name"]] = gen_value(rng, of["type"], classes, False)
+    return {"op": "reparse", "classes": classes, "type": {"dc": 2},
+            "options": dict(rng.choice(OPTION_MENU)) if rng.random() < 0.3 else None,
+            "entry": rng.choice(["from", "transform"]), "input": enc2({"item": data})}
+
+
 def gen_reparse_case(rng):
+    if rng.random() < 0.06:
+        return gen_discriminated(rng)
     classes = []
     for i in range(rng.choice([0, 1, 1, 1, 2, 2, 3])):
         classes.append(gen_class(rng, i, classes))
